@@ -114,6 +114,8 @@ def instances(tier):
             Inst("pl_identities_dc", make_pl(False), nvars=40, samples=2, raises=(UserWarning,), meta=dict(part="a", ac=False)),
             Inst("single_slack_fast_path", c01.make_shortcut(), nvars=30, samples=2, timeout_ms=120000,
                  meta=dict(part="c", note="slack P of the fast result extraction (losses + demand) equals the general extraction whenever it is selected")),
+            Inst("slack_power_split_with_a_generator_at_the_slack_bus", c01.make_generation("slack_plus_pv"), nvars=60, samples=2, timeout_ms=60000,
+                 meta=dict(part="c", note="total generation: the reference machines at a slack bus that also carries a PV generator deliver injection + demand - the PV set point")),
             Inst("passive_line", make_passive_line(), nvars=20, samples=2, timeout_ms=120000, meta=dict(part="b", element="line")),
             Inst("passive_trafo_pi", make_passive_trafo(), nvars=30, samples=2, timeout_ms=120000, meta=dict(part="b", element="trafo pi"))]
 
